@@ -10,12 +10,13 @@ claim('C20',
   text='Machine-checked theorems (Coq 8.16, closed under the global context). INI-style parser (qconfig.c): for every well-formed document, every white-space layout, '
        'separator, environment and command output, parse(render d) = eval d at document level (entries in file order, comments/blank lines ignored, "section." prefixes and marker '
        'entries, ${name} = last definition so far, ${%ENV}); the parser model is total. Apache-style parser (qaconf.c): tokenize(render words) = words for every mix of bare/single/double '
-       'quoting, escapes and gaps; _is_str_number and _is_str_bool equal the documented grammars (all eight boolean spellings, any letter case); the parser loop with its section recursion is total. '
-       'The document-level statement for the Apache-style parser (callback trace, count, first offending line = reference semantics aconf_srun) is checked by running the extracted reference '
-       'semantics against the implementation on generated document trees x option tables x flags; it is not yet a theorem (see notes/C20.md). Constants (_VAR*, _MAX_SUBSTITUTIONS, QAC_* bit layout, '
+       'quoting, escapes and gaps; _is_str_number and _is_str_bool equal the documented grammars (all eight boolean spellings, any letter case); and at document level, for every option table, '
+       'flags, default handler, callback behaviour and every well-formed document tree of nesting depth < 256 whose lines fit the line buffer: parse(render d) has the count, the first offending line '
+       'with its error, and the callback trace (otype, section, sections, level, parent chain, argv with booleans normalised to 1/0) of the reference semantics aconf_srun, whose count is the number of '
+       'directives (aconf_accepts_iff, aconf_count); the depth bound is shown necessary by a witness (level is uint8_t). Both parser models are total. Constants (_VAR*, _MAX_SUBSTITUTIONS, QAC_* bit layout, '
        'MAX_LINESIZE) are regenerated from the sources on every run; the hand-written models are tied by running the extracted model and the implementation on the same texts '
-       '(well-formed, mutated, hostile) and comparing entries / return value, error line and message, and the full callback trace.',
-  note='Five defects of the pinned code were repaired in fix: commits (false booleans rejected; arguments after the fifth unchecked; stale section id inside unregistered sections; plus the C17 ones), '
+       '(well-formed, mutated, hostile) and comparing entries / return value, error line and message, and the full callback trace; the extracted reference semantics (ini_eval, aconf_srun) and well-formedness predicates run as the property monitor on generated documents.',
+  note='Six defects of the pinned code were repaired in fix: commits (C20: false booleans rejected; arguments after the fifth not type-checked; stale section id inside unregistered sections; C17: tokenizer over-read, unbounded ${} expansion, uninitialised pointer freed), '
        'one is a known finding (level is uint8_t and wraps at depth 256). ${!cmd} is an uninterpreted oracle (popen stubbed to fail in the harness), @INCLUDE is not modelled. '
        'Trusted: Coq kernel, extraction, gen_consts.py, gcc, harness/h_conf.c, ocaml/d_conf.ml (which also formats the error messages).',
   technique='Rocq proof by induction (document-level round trip, buffer-level safety with explicit reads), constants translated from source by a compiled probe, extracted-model and extracted-specification correspondence',
